@@ -1036,6 +1036,16 @@ def correspond(ctx):
     # --- the crystal family and the setting the conversion works with, at the caller's tolerances ---
     _corr_family(ctx, rng, am)
     _corr_resolve(ctx, rng, am)
+    # --- cells written in another Cartesian frame: along the axes with the axes permuted / mirrored / half-turned, and
+    #     oblique ones mirrored / rotated (own random stream: the batches above see the same cases as before) ---
+    orng = random.Random(ctx.seed * 15485863 + 3)
+    for it in range(ctx.n(30, 200)):
+        kind = ('half-turn', 'lefthanded', 'permuted', 'mirror-rotated', 'rotated')[it % 5]
+        box, fam = frame_box(orng, am, kind, orth=it % 3 != 2)
+        U = [list(r) for r in FIXED_U[it % len(FIXED_U)]] if it % 2 == 0 else gen_U(orng, maxdet=5)[0]
+        sysm, fam, _ = gen_system(orng, am, fam_box=(box, fam), extra=near_face_atoms(orng, U) if it % 3 == 0 else [],
+                                  far=it % 4 == 1)
+        _corr_rotate(ctx, am, sysm, fam, U, _det3(U), 'rotate-oriented', U, 'int-list')
 
 
 def _unit_system(am):
@@ -2529,6 +2539,21 @@ def _check_p2c_undone(ctx, sysm, spos, prim2, T32, what, replay, extra_tol=0.0):
 
 
 HALF_TURNS = [(-1, -1, 1), (-1, 1, -1), (1, -1, -1)]
+
+
+def frame_box(rng, am, kind, orth):
+    """a cell of a standard family (`orth`: cubic / tetragonal / orthorhombic, i.e. along the Cartesian axes; else an
+    oblique one) written in another Cartesian frame: `half-turn` = two axes mirrored (right-handed, negative components),
+    otherwise `orient_box`."""
+    np = _np()
+    while True:
+        box, fam = _gen_box(rng, am)
+        if fam in (('cubic', 'tetragonal', 'orthorhombic') if orth else ('hexagonal', 'monoclinic', 'triclinic', 'rhombohedral')):
+            break
+    if kind == 'half-turn':
+        sg = rng.choice(HALF_TURNS)
+        return am.Box(vects=box.vects * np.array(sg, dtype=float), origin=box.origin), fam + '-halfturn'
+    return orient_box(rng, am, box, fam, kind)
 
 
 def _search_oriented(ctx, am, scale=1):
